@@ -546,6 +546,26 @@ func (m *c11Model) a5Window(locs *c11Locs) {
 	if nAppUpd == 0 {
 		idxBad = append(idxBad, "no child[k].Update() value is ever appended to an update list")
 	}
+	// the loop over the locations is never left early (break, return, a callback asking the iterator to stop):
+	// a path that is inside an iteration (it appended an update after the loop head) must end at the back edge
+	for _, p := range m.paths {
+		for lk := range updLoops {
+			if p.ctl == c11Back && p.loopKey == lk {
+				continue
+			}
+			inside := false
+			for _, ev := range p.st.ev {
+				if ev.kind == "loop" && ev.key == lk {
+					inside = true
+					continue
+				}
+				if _, _, ok := updateAppended(p.st, ev); ok && inside {
+					idxBad = append(idxBad, "the loop over the locations of the group can be left before all locations are visited (break, return, or a callback that asks the iterator to stop) after `"+src(r.P.Fset, ev.node)+"`: the remaining locations of the child would get no update")
+					break
+				}
+			}
+		}
+	}
 	// every iteration over the locations of the group appends exactly one update (no location skipped)
 	for _, p := range m.paths {
 		if p.ctl != c11Back || !updLoops[p.loopKey] {
